@@ -7,6 +7,7 @@ PLAN = {
     "C04": [{"world": "exec", "share": 1, "probes": []}],
     "C14": [{"world": "exec", "share": 1, "probes": ["byzantine-payload-admitted"]}],
     "C05": [{"world": "chain", "share": 1, "probes": ["reorg-depth-1", "reorg-depth-2", "reorg-depth-3", "abandoned-tx-checked", "extended-own-tip-at-end"]}],
+    "C06": [{"world": "chain", "share": 1, "probes": ["crash-scan-connect", "crash-scan-orphan-chain", "crash-scan-reorg", "recovery-wrote-to-disk"]}],
     "C07": [{"world": "chain", "share": 1, "probes": ["reorg-depth-1", "reorg-depth-2", "reorg-depth-3", "reorg-with-handback", "extended-own-tip-at-end"]}],
     "C10": [{"world": "store-trie", "share": 1,
              "probes": ["delete-absent-only", "trie-emptied", "died-in-commit", "historical-root-read"]}],
